@@ -4,7 +4,7 @@ import z3
 
 from . import front
 from .ty import (TInt, TReal, TBool, TStr, TNone, TAny, TTuple, TRec, TList, TDict, TSet, TOpt,
-                 TUnion, TObj, TFunc)
+                 TUnion, TObj, TFunc, TLin)
 from .vals import *  # noqa
 from .symex import t_and, t_or, t_not, t_ite, to_real, Frame, SPEC_BUILTINS
 from .interp import NUM, BUILTIN_CLASSES, VPoison
@@ -89,8 +89,8 @@ class CallMixin(CompMixin):
     # ------------------------------------------------------------------ builtins
 
     def call_builtin(self, st, name, args, kw, node):
-        if name in SPEC_BUILTINS or name in ("forall", "exists", "implies", "iff", "old", "ite", "is_none",
-                                            "typed", "sameobj", "count", "opaque", "the", "domain", "fresh"):
+        from .interp import SPEC_FUNCS
+        if name in SPEC_BUILTINS or name in SPEC_FUNCS:
             return self.call_spec_builtin(st, name, args, kw, node)
         a = [self.force(st, x) for x in args]
         if name == "len":
@@ -617,7 +617,7 @@ class CallMixin(CompMixin):
                 return self.call_obj_method(st, recv, h, name, args, kw, node)
             if isinstance(h, (HDict, HPyDict)):
                 return self.dict_method(st, recv, h, name, args, kw, node)
-            if isinstance(h, (HSeq, HList, HListC)):
+            if isinstance(h, (HSeq, HList, HListC, HBag)):
                 return self.list_method(st, recv, h, name, args, kw, node)
             if isinstance(h, (HSet, HPySet)):
                 return self.set_method(st, recv, h, name, args, kw, node)
@@ -824,6 +824,16 @@ class CallMixin(CompMixin):
 
     def list_method(self, st, recv, h, name, args, kw, node):
         a = [self.force(st, x) for x in args]
+        if name == "append" and st.rec and recv.root not in st.rec[-1].fresh and self.canon(st, recv).root in getattr(st.rec[-1], "before", ()):
+            # append to a loop-external list inside a summarised loop: order-free accumulation
+            from .interp import Effect
+            c = self.canon(st, recv)
+            g = t_and(*st.pc[st.rec[-1].pc_len:])
+            val = a[0]
+            if isinstance(val, VRef) and val.root not in st.rec[-1].before:
+                val = self.resolve(st, val)
+            st.rec[-1].effects.append(Effect("append", c.root, c.path, val, g, where=self.where(node, st)))
+            return VNone()
         if name == "append":
             if isinstance(h, HList):
                 self.write_h(st, recv, HList(list(h.items) + [a[0]]))
